@@ -165,6 +165,27 @@ static void run_paths(uint64_t idx, pv_rng* rng) {
     PV_DISTINCT("nontrivial", pv_mix(pv_mseed_hash(&m), coin ^ 0x5a5a0000));
 }
 
+/* key sizes that do not fit 32 (or 31) bits: the length must reach the KDF unaltered.  The monitor only records such
+ * lengths and leaves the buffer alone, so no memory of that size is needed. */
+static const size_t HUGE[] = { ((size_t)1 << 31) - 1, (size_t)1 << 31, ((size_t)1 << 31) + 7, ((size_t)1 << 32) - 1, (size_t)1 << 32, ((size_t)1 << 32) + 32, ((size_t)1 << 33) + 1, ((size_t)1 << 40) + 5, (size_t)-1 };
+static uint64_t n_huge(void) { return 10 * sizeof HUGE / sizeof *HUGE; }
+static void run_huge(uint64_t idx, pv_rng* rng) {
+    size_t ks = HUGE[idx % (sizeof HUGE / sizeof *HUGE)];
+    pv_mseed m; pv_gen_mseed(rng, 7, true, &m); unsigned coin = pv_gen_coin(rng);
+    polyseed_data* s = pv_seed_from_model(&m);
+    if (!s) return;
+    uint8_t* key = malloc(16); memset(key, 0xEE, 16);
+    pv_w->kdf_nowrite_above = 1u << 20;
+    pv_api_keygen(s, coin, ks, key);
+    pv_w->kdf_nowrite_above = 0;
+    PV_COUNT("evaluations", 1);
+    if (pv_w->nkdf != 1) pv_violation("C04/kdf-call-count", "keygen with key size %zu invoked the KDF %d times", ks, pv_w->nkdf);
+    else if (pv_w->kdf[0].keylen != ks || pv_w->kdf[0].key != key) pv_violation("C04/key-length", "caller asked for %zu key bytes, the KDF was told %zu", ks, pv_w->kdf[0].keylen);
+    else { PV_COUNT("huge.key_sizes_passed_unaltered", 1); PV_DISTINCT("nontrivial", pv_mix(pv_mseed_hash(&m), (uint64_t)ks)); }
+    for (int i = 0; i < 16; ++i) if (key[i] != 0xEE) { pv_violation("C04/key-rewritten-after-kdf", "the library wrote into the key buffer itself (key size %zu)", ks); break; }
+    free(key); pv_api_free(s);
+}
+
 /* neighbours in each domain-separation field must give different inputs */
 static uint64_t n_neigh(void) { return pv_scaled(2000, 50000); }
 static void run_neigh(uint64_t idx, pv_rng* rng) {
@@ -233,6 +254,6 @@ static void run_conc(uint64_t idx, pv_rng* rng) {
 }
 
 int main(int argc, char** argv) {
-    static const pv_section secs[] = { { "keygen", n_keygen, run_keygen }, { "paths", n_paths, run_paths }, { "neighbours", n_neigh, run_neigh }, { "concurrent", n_conc, run_conc } };
-    return pv_main(argc, argv, "C04", secs, 4, init, NULL);
+    static const pv_section secs[] = { { "keygen", n_keygen, run_keygen }, { "paths", n_paths, run_paths }, { "neighbours", n_neigh, run_neigh }, { "huge", n_huge, run_huge }, { "concurrent", n_conc, run_conc } };
+    return pv_main(argc, argv, "C04", secs, 5, init, NULL);
 }
